@@ -1150,16 +1150,17 @@ class Workflow(Trellis):
         nsucceeded, ntotal = self.db.execute(sql, (self.need_threshold.value,)).fetchone()
         return nsucceeded, ntotal
 
-    def steps(self, state: StepState) -> list[Step]:
+    def steps(self, state: StepState, *, include_detached: bool = False) -> list[Step]:
         """Return all steps with the given state.
+
+        Detached steps are skipped unless `include_detached` is set.
 
         The result is a list instead of a lazy cursor,
         so it is safe to iterate over it while mutating the graph (e.g. marking steps pending).
         """
-        sql = (
-            "SELECT i, label FROM node JOIN step ON node.i = step.node "
-            "WHERE state = ? AND NOT detached"
-        )
+        sql = "SELECT i, label FROM node JOIN step ON node.i = step.node WHERE state = ?"
+        if not include_detached:
+            sql += " AND NOT detached"
         return [Step(self, i, label) for i, label in self.db.execute(sql, (state.value,))]
 
     #
